@@ -19,9 +19,10 @@ ChunkParserStates = NamedTuple(
         ('WAITING_FOR_SIZE', int),
         ('WAITING_FOR_DATA', int),
         ('COMPLETE', int),
+        ('WAITING_FOR_TRAILER', int),
     ],
 )
-chunkParserStates = ChunkParserStates(1, 2, 3)
+chunkParserStates = ChunkParserStates(1, 2, 3, 4)
 
 
 class ChunkParser:
@@ -48,26 +49,39 @@ class ChunkParser:
             self.chunk = b''
             # Extract following chunk data size
             line, raw = find_http_line(raw)
-            # CRLF not received or Blank line was received.
-            if line is None or line.strip() == b'':
+            if line is None:
+                # CRLF not received yet, wait for more data.
                 self.chunk = raw
                 raw = b''
+            elif line.strip() == b'':
+                # CRLF terminating the previous chunk data, skip it.
+                pass
             else:
-                self.size = int(line, 16)
-                self.state = chunkParserStates.WAITING_FOR_DATA
+                # Ignore chunk extensions, if any.
+                self.size = int(line.split(b';', 1)[0], 16)
+                self.state = chunkParserStates.WAITING_FOR_DATA \
+                    if self.size > 0 else chunkParserStates.WAITING_FOR_TRAILER
         elif self.state == chunkParserStates.WAITING_FOR_DATA:
             assert self.size is not None
             remaining = self.size - len(self.chunk)
             self.chunk += raw[:remaining]
             raw = raw[remaining:]
             if len(self.chunk) == self.size:
-                raw = raw[len(CRLF):]
                 self.body += self.chunk
-                if self.size == 0:
-                    self.state = chunkParserStates.COMPLETE
-                else:
-                    self.state = chunkParserStates.WAITING_FOR_SIZE
+                self.state = chunkParserStates.WAITING_FOR_SIZE
                 self.chunk = b''
+                self.size = None
+        elif self.state == chunkParserStates.WAITING_FOR_TRAILER:
+            # Last chunk received.  Skip optional trailer lines
+            # until the blank line terminating the chunked body.
+            raw = self.chunk + raw
+            self.chunk = b''
+            line, raw = find_http_line(raw)
+            if line is None:
+                self.chunk = raw
+                raw = b''
+            elif line == b'':
+                self.state = chunkParserStates.COMPLETE
                 self.size = None
         return len(raw) > 0, memoryview(raw)
 
